@@ -72,29 +72,31 @@ structure Mode where
 def Table.pick (t : Table) (names : List String) : List Level :=
   t.levels.filter (fun l => names.contains l.name)
 
-def Table.others (t : Table) (names : List String) : List Level :=
-  t.levels.filter (fun l => !names.contains l.name)
+def noLevel : Level := ⟨"", .emp, []⟩
+def Table.level (t : Table) (k : Nat) : Level := (nth t.levels k).getD noLevel
 
-def ands : List RE → RE
-  | [] => .not .emp
-  | [a] => a
-  | a :: as => .and a (ands as)
+/-- the per-level test of `classify` -/
+def Level.classifies (l : Level) (w : Word) : Bool :=
+  !(l.notContains.any (fun x => isInfix x w)) && rmatch l.search w
 
-/-- what every prompt of the mode must satisfy: detected and classified by every level of the group -/
-def ownRE (t : Table) (m : Mode) : RE := ands (t.detect :: (t.pick m.group).map Level.classified)
+/-- empty ⇔ every prompt of the grammar is found by the channel's joined pattern -/
+def detOb (t : Table) (m : Mode) : RE := .and m.grammar (.not t.detect)
 
-/-- what no prompt of the mode may satisfy: classified by a level outside the group -/
-def foreignRE (t : Table) (m : Mode) : RE := RE.alts ((t.others m.group).map Level.classified)
-
-/-- empty ⇔ every prompt of the grammar is detected and classified by its whole share group -/
-def inclOb (t : Table) (m : Mode) : RE := .and m.grammar (.not (ownRE t m))
-
-/-- empty ⇔ no prompt of the grammar is classified by a level outside the share group -/
-def disjOb (t : Table) (m : Mode) : RE := .and m.grammar (foreignRE t m)
+/-- for the `k`-th level of the table:
+    in the share group : empty ⇔ every prompt of the grammar is classified by the level;
+    outside            : empty ⇔ no prompt of the grammar is classified by the level -/
+def levelOb (t : Table) (m : Mode) (k : Nat) : RE :=
+  let l := t.level k
+  if m.group.contains l.name then .and m.grammar (.not l.classified) else .and m.grammar l.classified
 
 /-- every level name of the share group exists in the table (otherwise inclusion would be vacuous) -/
 def groupPresent (t : Table) (m : Mode) : Bool :=
   !m.group.isEmpty && m.group.all (fun n => t.levels.any (fun l => l.name == n))
+
+/-- what C05 asserts for one mode: every prompt of the grammar is detected by the channel and
+    `_determine_current_priv` returns exactly the share group (in table order) -/
+def ModeOK (t : Table) (m : Mode) : Prop :=
+  ∀ w, Lang m.grammar w → detects t w = true ∧ classify t w = (t.pick m.group).map (·.name)
 
 def nthMode (ms : List Mode) (i : Nat) : Mode := (nth ms i).getD ⟨"", [], .emp⟩
 
